@@ -11,7 +11,9 @@ CLAIMS = {
              "bounds on every path, (pointer,length) arguments inside the buffer, no wrapped unsigned bound, and the "
              "Finder protocol (offset_ <= length_ preserved; a reported match implies offset_ <= length_). Further "
              "structural clauses (typed tag access, division guards, loop-item index, word tables) as listed in the "
-             "evidence. Decides necessary memory-safety/termination clauses for all inputs; not the tag-offset "
+             "evidence, among them loop progress (PROG): for 55 cursor-controlled loops the measure bound - cursor is "
+             "proven to drop on every edge back to the loop head (ghost copies per iteration in E-ZONE); loops outside "
+             "the domain are listed as not decided. Decides necessary memory-safety/termination clauses for all inputs; not the tag-offset "
              "data-structure invariants across parse->render.",
         note=TRUST + "Buffer contracts in tables/contracts.py; tag grammar assumption for getValue's one-past read; "
              "cursor+small constant does not overflow; by-reference parameters do not alias.",
@@ -57,13 +59,16 @@ CLAIMS = {
              "uninstantiated JSON parser, UnEscape and number scanner proves every raw read of the input buffer in "
              "bounds on every path, every (pointer,length) argument inside the caller's buffer, keyword-literal walks "
              "stopping at the terminator, and by-reference cursor guarantees on every exit -- for all inputs and all "
-             "Char_T at once. It decides the memory-safety clauses of the property, not write-side container safety.",
+             "Char_T at once; loop progress (PROG) for 25 cursor-controlled loops (bound - cursor drops on every edge "
+             "back to the loop head; the member loops of parseObject/parseArray, whose progress is a callee's, are "
+             "listed as not decided). It decides the read-safety clauses and part of the termination clause, not "
+             "write-side container safety or stack depth.",
         note=TRUST + "The per-function buffer contracts in tables/contracts.py (requires proven at call sites, ensures "
              "proven on every exit); assumes cursor+small constant does not overflow SizeT and by-reference "
              "parameters do not alias.",
         technique="static analysis: difference-bound abstract interpretation of cursors over clang CFGs "
                   "(libTooling exporter + Python engine)",
-        ref="DESIGN.md section 5 C05, section 3.1 E-ZONE"),
+        ref="DESIGN.md section 5 C05, section 4.3 E-ZONE"),
     "C07": dict(
         text="Static analysis, partial: must-pass-through/typestate over the clang CFG of the uninstantiated parser: "
              "the success return of Parse is reached only with the zone fact offset == length; every failing exit of "
